@@ -37,6 +37,9 @@ def cases(rng, tier):
         out.append(dict(seed=2000 + i, n=100, profile="third-alone" if i % 2 else "third"))
     for _ in range(n):
         out.append(dict(seed=rng.randrange(10**9), n=rng.choice([30, 60, 120, 200]), profile=rng.choice(mc.PROFILES)))
+    for _ in range(20 if tier == "quick" else 400):
+        out.append(dict(kind="pair", seed=rng.randrange(10**9), fifo=rng.random() < 0.5, match=rng.random() < 0.8,
+                        nmsg=rng.randrange(1, 4), drops=rng.random() < 0.3))
     return out
 
 
@@ -65,6 +68,12 @@ evidence_extra = mc.cert_stats
 def run_case(case):
     if case.get("kind") == "trace":
         return mc.run_trace_case(case, trace_oracle)
+    if case.get("kind") == "pair":
+        # both API styles (a delegated and a Deferred client), close() repeated after completion
+        from . import c18
+        r = c18.run_pair(case)
+        keep = [(sg, m) for sg, m in r.violations if sg.startswith(("internal", "second-close", "verdict:"))]
+        return Result([], [], keep, ["pair"], True, info=r.info)
     if "ops" in case:
         ob, summary = mc.replay(case["ops"], welcome_error=case.get("welcome_error"), npeers=case.get("npeers"),
                                 seed=case.get("seed", 0))
@@ -92,6 +101,8 @@ def shrink(case):
     if case.get("kind") == "trace":
         yield from mc.trace_shrink(case)
         return
+    if case.get("kind") == "pair":
+        return          # generated from a seed; replayed as it is
     case = explicit(case)
     ops = case["ops"]
     n = len(ops)
